@@ -504,8 +504,11 @@ func main() {
 			}
 			for _, server := range []bool{true, false} {
 				for _, p := range pres {
-					for _, mode := range []string{"frame-by-frame", "discarding"} {
+					for _, mode := range []string{"frame-by-frame", "discarding", "frame-by-frame, the continuation handler objecting to every continuation"} {
 						if mode == "discarding" && !p.open {
+							continue
+						}
+						if strings.HasPrefix(mode, "frame-by-frame,") && !strings.Contains(p.name, "Cont") {
 							continue
 						}
 						for hiccup := -1; hiccup <= len(p.frames); hiccup++ {
@@ -536,6 +539,11 @@ func main() {
 											st = ws.StateServerSide
 										}
 										rd := &wsutil.Reader{Source: src, State: st}
+										errObject := fmt.Errorf("continuation handler objects")
+										if strings.HasPrefix(mode, "frame-by-frame,") {
+											// (the state is the stream's, not the handler's: an objection changes nothing)
+											rd.OnContinuation = func(ws.Header, io.Reader) error { return errObject }
+										}
 										next := func() error {
 											for i := 0; i < 4; i++ {
 												_, e := rd.NextFrame()
@@ -546,13 +554,16 @@ func main() {
 											return fmt.Errorf("harness: temporary error repeats")
 										}
 										var got error
-										if mode == "frame-by-frame" {
+										if strings.HasPrefix(mode, "frame-by-frame") {
 											for range p.frames {
-												if err := next(); err != nil {
+												if err := next(); err != nil && err != errObject {
 													return explore.Failf("harness-prefix", "NextFrame: %v", err)
 												}
 											}
 											got = next()
+											if got == errObject {
+												got = nil // the probe was a continuation the check let through
+											}
 										} else {
 											if err := next(); err != nil {
 												return explore.Failf("harness-prefix", "NextFrame: %v", err)
